@@ -27,7 +27,7 @@ PATHS = ("cwrite", "block_to_file", "to_tim", "to_dat", "to_spec", "to_fft")
 
 
 def REQUIRED(tier):
-    return ["readback_blocks_held", "readback_overlapping_plan", "prep_outfile:no_arguments", "path:cwrite", "path:block_to_file", "path:to_tim", "path:to_dat", "path:to_spec", "path:to_fft",
+    return ["view:byteswapped", "readback_blocks_held", "readback_overlapping_plan", "prep_outfile:no_arguments", "path:cwrite", "path:block_to_file", "path:to_tim", "path:to_dat", "path:to_spec", "path:to_fft",
             "readback_compared", "declared_width_checked", "spy:cwrite_calls", "dtype_mismatch_cases", "multi_call_writes", "path:reuse_name", "reuse_name:equal_length_products", "dotted_basename_pairs"]
 
 
@@ -59,7 +59,7 @@ def cases(tier, seed):
         depth = int(rng.choice(DEPTHS))
         c = {"path": path, "depth": depth, "dtype": str(rng.choice(DTYPES)), "nsamps": int(rng.choice([1, 2, int(rng.integers(1, 300))])),
              "nchans": sigfile.legal_nchans(depth, int(rng.choice([1, int(rng.integers(1, 40))]))) if path == "cwrite" else int(rng.integers(1, 20)),
-             "ncalls": int(rng.integers(1, 6)), "view": str(rng.choice(["contig", "strided", "transposed"])), "dseed": int(seed) * 7919 + k}
+             "ncalls": int(rng.integers(1, 6)), "view": str(rng.choice(["contig", "strided", "transposed", "byteswapped"])), "dseed": int(seed) * 7919 + k}
         yield c
 
 
@@ -134,6 +134,8 @@ def _run_cwrite(case, ctx):
     mismatch = dt != file_dt
     if mismatch:
         ctx.count("dtype_mismatch_cases")
+    if case.get("view") in ("byteswapped",):
+        ctx.count(f"view:{case['view']}")
     out = os.path.join(ctx.tmp, f"c04_{ctx.evaluations}.fil")
     hdr = _mk_header(nch, 8, ns, out)
     cuts = sorted(rng.choice(np.arange(1, ns), size=ncalls - 1, replace=False).tolist()) if ncalls > 1 else []
@@ -159,6 +161,9 @@ def _run_cwrite(case, ctx):
                 flat = big[::2]
             elif view == "transposed":
                 flat = np.asfortranarray(part.astype(dt)).T.T.ravel()  # forces a copy path through ravel of F-ordered
+            elif view == "byteswapped":
+                # the same values in the other byte order (what astropy.io.fits or np.frombuffer(..., '>f4') hand over)
+                flat = flat.astype(flat.dtype.newbyteorder(">")) if flat.dtype.itemsize > 1 else flat
             fw.cwrite(flat)
     except Exception as exc:  # noqa: BLE001
         err = exc
